@@ -39,7 +39,14 @@ Record lexcfg := {
   radix_ci_max : Z;              (* bases up to this one are case-insensitive *)
   dmap_ci : dmap;
   dmap_cs : dmap;
-  max_deref_depth : Z
+  max_deref_depth : Z;
+  (* which function each alternative calls: [true] = parse_shell_literal_number (wrapping),
+     [false] = i64::from_str_radix / str::parse::<u64> (range-checked) *)
+  hex_wrap : bool;
+  oct_wrap : bool;
+  dec_wrap : bool;
+  blank_zero : bool;             (* full_expression = _ ![_] {0} / …  (false: ![_] {0} / …) *)
+  subscript_ws : bool            (* lvalue = name "[" _ expression _ "]" (false: no blanks) *)
 }.
 
 Fixpoint take_while (cls : cclass) (s : str) : str * str :=
@@ -90,20 +97,6 @@ Definition u64_parse_cast (s : str) : option Z :=
 Section Lit.
   Variable cfg : lexcfg.
 
-  (** rule [decimal_literal] *)
-  Definition decimal_literal (s : str) : option (Z * str) :=
-    match s with
-    | c :: s' =>
-      if in_class (dec_first cfg) c then
-        let '(ds, rest) := take_while (dec_rest cfg) s' in
-        match u64_parse_cast (c :: ds) with
-        | Some v => Some (v, rest)
-        | None => None
-        end
-      else None
-    | [] => None
-    end.
-
   (** [parse_shell_literal_number]; [radix] is the [u64] *)
   Fixpoint shell_digits (radix : Z) (acc : Z) (s : str) : option Z :=
     match s with
@@ -117,6 +110,20 @@ Section Lit.
     end.
   Definition parse_shell_literal_number (s : str) (radix : Z) : option Z :=
     if (radix_min cfg <=? radix) && (radix <=? radix_max cfg) then shell_digits radix 0 s else None.
+
+  (** rule [decimal_literal] *)
+  Definition decimal_literal (s : str) : option (Z * str) :=
+    match s with
+    | c :: s' =>
+      if in_class (dec_first cfg) c then
+        let '(ds, rest) := take_while (dec_rest cfg) s' in
+        match (if dec_wrap cfg then parse_shell_literal_number (c :: ds) 10 else u64_parse_cast (c :: ds)) with
+        | Some v => Some (v, rest)
+        | None => None
+        end
+      else None
+    | [] => None
+    end.
 
   Definition lit_radix (s : str) : option (Z * str) :=
     match decimal_literal s with
@@ -139,7 +146,8 @@ Section Lit.
     | c0 :: c1 :: s2 =>
       if N.eqb c0 (hex_lead cfg) && in_class (hex_marker cfg) c1 then
         let '(ds, rest) := take_while (hex_digits cfg) s2 in
-        match i64_from_str_radix (hex_radix cfg) ds with
+        match (if hex_wrap cfg then parse_shell_literal_number ds (hex_radix cfg)
+               else i64_from_str_radix (hex_radix cfg) ds) with
         | Some v => Some (v, rest)
         | None => None
         end
@@ -152,7 +160,8 @@ Section Lit.
     | c0 :: s1 =>
       if N.eqb c0 (oct_lead cfg) then
         let '(ds, rest) := take_while (oct_digits cfg) s1 in
-        match i64_from_str_radix (oct_radix cfg) (c0 :: ds) with
+        match (if oct_wrap cfg then parse_shell_literal_number (c0 :: ds) (oct_radix cfg)
+               else i64_from_str_radix (oct_radix cfg) (c0 :: ds)) with
         | Some v => Some (v, rest)
         | None => None
         end
